@@ -305,7 +305,7 @@ PROPS["C01"] = dict(
                "lack the underscore; _make_header keeps every user key, drops the reserved bookkeeping keys in either case, records "
                "_DTYPE/_VERSION and leaves the caller's dict untouched; the binary branch of _ensure_compatible_dtype. Bounded: "
                "byte-for-byte round trip of random packed dtypes (all item types of the statement, sub-arrays to 3-d, both byte "
-               "orders, NaN payloads, embedded NULs, strided views) with twelve header shapes (END/SIZE words, quotes, newlines, "
+               "orders, NaN payloads, embedded NULs, strided views) with thirteen header shapes (END/SIZE words, quotes, newlines, "
                "non-ASCII, nested literals, look-alike keys) through the eight entry points.",
     level_note="The deciding code (Records::Write, ReadAllAsBinary, read_sfile_header) is C++ over FILE*: not under contract; "
                "eval-based header parsing is Python's own parser (trusted). Hence level 'other': the statement itself is decided by the bounded oracle.",
